@@ -225,7 +225,7 @@ def _kcache_path(f, full):
     h.update(json.dumps([f.raw.get('overflow_checks'), f.raw.get('debug_assertions'), sorted(f.features)]).encode())
     consts = {c['def']: c for c in f.raw.get('consts', [])}
     statics = {s_['def']: s_ for s_ in f.raw.get('statics', [])}
-    todo = [kernel.D2J, kernel.J2D, kernel.ISO_T, kernel.ISO_R]
+    todo = [kernel.D2J, kernel.J2D, kernel.ISO_T, kernel.ISO_R, kernel.DOY]
     seen = set()
     rx_key = re.compile(r'"key": "((?:[^"\\]|\\.)*)"')
     rx_ref = re.compile(r'"ref": "((?:[^"\\]|\\.)*)"')
